@@ -8,20 +8,25 @@ if TYPE_CHECKING:
     from geff_spec import Axis
 
 
-def validate_ellipsoid(covariance: np.ndarray, axes: list[Axis] | None) -> None:
+def validate_ellipsoid(
+    covariance: np.ndarray, axes: list[Axis] | None, missing: np.ndarray | None = None
+) -> None:
     """Validate that ellipsoid data has a valid covariance matrix
 
-    The first axis of the covariance array corresponds to the number of nodes. The
-    remaining axes correspond to the number of spatial axes.
+    The covariance array has shape (N, D, D): the first axis corresponds to the number
+    of nodes, the two remaining axes to the D spatial axes.
 
     Args:
         covariance (np.ndarray): Covariance array stored as values for an ellipsoid property
         axes (list[Axis]): List of Axis metadata
+        missing (np.ndarray | None): Optional boolean mask over the nodes. Entries flagged
+            missing are not required to be symmetric or positive-definite.
 
     Raises:
         ValueError: Must define space axes in order to have ellipsoid data
-        ValueError: Ellipsoid covariance matrix must have 1 + number of spatial dimensions
+        ValueError: Ellipsoid covariance matrix must have 3 dimensions
         ValueError: Spatial dimensions of covariance matrix must be equal
+        ValueError: Ellipsoid covariance matrix must have as many spatial dimensions as space axes
         ValueError: Ellipsoid covariance matrices must be symmetric
         ValueError: Ellipsoid covariance matrices must be positive-definite
     """
@@ -39,9 +44,10 @@ def validate_ellipsoid(covariance: np.ndarray, axes: list[Axis] | None) -> None:
     if bad_axes:
         raise ValueError("Must define space axes in order to have ellipsoid data")
 
-    if covariance.ndim != (exp_dim := spatial_dim + 1):
+    # One (spatial_dim x spatial_dim) matrix per node
+    if covariance.ndim != 3:
         raise ValueError(
-            f"Ellipsoid covariance matrix must have {exp_dim} dimensions, got {covariance.ndim}"
+            f"Ellipsoid covariance matrix must have 3 dimensions, got {covariance.ndim}"
         )
 
     if covariance.shape[1] != covariance.shape[2]:
@@ -49,19 +55,29 @@ def validate_ellipsoid(covariance: np.ndarray, axes: list[Axis] | None) -> None:
             f"Spatial dimensions of covariance matrix must be equal, got {covariance.shape[1:]}"
         )
 
-    transpose = [0, *list(range(covariance.ndim - 1, 0, -1))]
-    if not np.allclose(covariance, np.transpose(covariance, axes=transpose)):
+    if covariance.shape[1] != spatial_dim:
+        raise ValueError(
+            f"Ellipsoid covariance matrix must have {spatial_dim} spatial dimensions, "
+            f"got {covariance.shape[1:]}"
+        )
+
+    if missing is not None:
+        covariance = covariance[~np.asarray(missing, dtype=bool)]
+
+    if not np.allclose(covariance, np.transpose(covariance, axes=[0, 2, 1])):
         raise ValueError("Ellipsoid covariance matrices must be symmetric")
 
     if not np.all(np.linalg.eigvals(covariance) > 0):
         raise ValueError("Ellipsoid covariance matrices must be positive-definite")
 
 
-def validate_sphere(radius: np.ndarray) -> None:
-    """Validate that sphere data has nonzero radii and is 1d
+def validate_sphere(radius: np.ndarray, missing: np.ndarray | None = None) -> None:
+    """Validate that sphere data has non-negative radii and is 1d
 
     Args:
         radius (np.ndarray): Values array of a sphere property
+        missing (np.ndarray | None): Optional boolean mask over the nodes. Entries flagged
+            missing may hold any value.
 
     Raises:
         ValueError: Sphere radius values must be non-negative
@@ -69,6 +85,9 @@ def validate_sphere(radius: np.ndarray) -> None:
     """
     if radius.ndim != 1:
         raise ValueError(f"Sphere radius values must be 1D, got {radius.ndim} dimensions")
+
+    if missing is not None:
+        radius = radius[~np.asarray(missing, dtype=bool)]
 
     if np.any(radius < 0):
         raise ValueError("Sphere radius values must be non-negative.")
